@@ -28,3 +28,45 @@ SPECS['C19'] = dict(
     quick=dict(workers=16, cases=1500, size=100, timeout=900),
     thorough=dict(workers=16, cases=60000, size=100, timeout=3600),
 )
+
+SPECS['C08'] = dict(
+    kind='native', drivers=['p_c08.cpp'], shims=['sut_inst'], with_lib=True,
+    level='exploration', exhaustive_part=True,
+    technique='exhaustive day-level enumeration + rapidcheck sampling against independent civil-calendar arithmetic (Hinnant)',
+    level_text=('Every day of 1901-2099 (all-day, second- and millisecond-resolution instants) is combined with a fixed set of ~330 signed day '
+                'deltas and both range ends: add vs calendar, diff(add)=delta, diff reversed, add inverse; epoch conversions of every day at '
+                '00:00:00/23:59:59/one more second; sampled: arbitrary pairs at ms resolution, fixup of overflowed fields, ordering predicates.'),
+    level_note='trusts oracle/civil.hpp (days_from_civil / civil_from_days) and the field-copy shim sut/sut_inst.c; ASan+bounds on',
+    rule=('exhaustive: every day 1901-01-01..2099-12-31 x 3 instant kinds (ms, all-sec, all-day) x ~330 signed day deltas (1..62, 7k, month/year '
+          'lengths, 2^n, 2^n+-1, distance to both range ends) -> add/diff/inverse; epoch round trip at 3 seconds of every day; sampled (rapidcheck): '
+          'add/diff with the true ms distance between two generated instants, fixup of overflowed m/d/H/M/S/ms, to/from epoch (and the daemon wake-up '
+          'timestamp when the daemon shim is linked), lt/le/eq vs calendar order with the sentinel rule. non-trivial = |delta|>49 d or delta<0 or the span '
+          'crosses a 29 Feb; epoch: Jan/Feb or pre-1970; fixup: some field really overflows; order: same day or mixed kinds. distinct = distinct case text'),
+    assumptions=['mixing all-day with timed instants in diff/add is not generated (undefined in the code)',
+                 'years 1900/2100 excluded (code documents the y%4 leap rule)',
+                 'epoch conversion of all-day instants is not judged (which second an all-day instant denotes is not stated)',
+                 'fixup is read mktime-like: months carry into the year first, then days run on from the 1st of that month'],
+    quick=dict(workers=16, cases=3000, size=100, timeout=900),
+    thorough=dict(workers=16, cases=400000, size=100, timeout=3600),
+)
+
+SPECS['C18'] = dict(
+    kind='native', drivers=['p_c18.cpp'], shims=['sut_inst'], with_lib=True,
+    level='exploration', exhaustive_part=True,
+    technique='print/parse round-trip: exhaustive day level + rapidcheck-generated instants, durations and duration spellings',
+    level_text=('Every day 1901-2099 in all date spellings and four seconds of each day in all 16 hand-rendered timed spellings plus dt_strf/dt_strf_ical '
+                'are enumerated; durations (whole seconds, 0..3 years, log-uniform with 32-bit boundaries) are printed with idiff_strf or spelled with a '
+                'generated legal designator combination and must parse to the same milliseconds.'),
+    level_note='the expected value is the generated model value itself (round-trip oracle); trusts the shim sut/sut_inst.c; strings are NUL-terminated heap copies',
+    rule=('inst: (instant, spelling) with spelling in {dt_strf, dt_strf_ical, hand-rendered with/without dashes, T or space, with/without colons, with/without Z, '
+          '.mmm for ms instants}; parse must return the same instant bit-for-bit (incl. all-day/all-sec sentinels) and the end pointer must sit after the text. '
+          'dur: whole-second value v and a spelling: idiff_strf(v), or [+]P..: weeks alone, or D/H/M/S with generated carries (e.g. P1DT36H), zero components '
+          'optionally written, optional leading +; parse must give v ms. non-trivial: instant on a field boundary (first/last day, month, hour, minute, second); '
+          'duration >= 49.8 d or >=3 designators or leading +. distinct = distinct case text'),
+    assumptions=['strings are NUL-terminated and passed with their length, as every caller does (the parsers read one byte past len)',
+                 'sub-second and negative durations are outside the statement and not generated',
+                 'dt_strf_ical has no millisecond field: an ms instant printed that way is expected back at second resolution',
+                 'timed spellings always carry seconds'],
+    quick=dict(workers=16, cases=8000, size=100, timeout=900),
+    thorough=dict(workers=16, cases=500000, size=100, timeout=3600),
+)
